@@ -153,3 +153,136 @@ structure CS.ok (cs : CS) : Prop where
   dimsPos : ∀ D ∈ cs.dims, (0 : Rat) < D
 
 end Darsia
+
+/-! ## round 2: the remaining public surface of `CoordinateSystem`, `Image` geometry and the point helpers -/
+namespace Darsia
+
+/-- `CoordinateSystem.coordinate_vector`: `scaling * pixel_vector[pos] * voxel_size[axis]` per Cartesian axis -/
+def coordVecWith (am : AxisMap) (cs : CS) (w : List Rat) : List Rat :=
+  am.map fun pr => sgn pr.2 * listGetD w pr.1 0 * cs.h pr.1
+
+def CS.coordinateVector (cs : CS) (w : List Rat) : Except Err (List Rat) :=
+  (axisMap cs.dim).map fun am => coordVecWith am cs w
+
+/-- matrix position of Cartesian axis `i` (`voxel_size[axis] = img.voxel_size[pos]`); `assert axis in self.axes` -/
+def CS.axisPos (cs : CS) (i : Nat) : Except Err Nat :=
+  if i < cs.dim.toNat then (axisMap cs.dim).map fun am => (listGetD am i (0, false)).1 else .error .assertion
+
+/-- `CoordinateSystem.length(num, axis)` = `num * voxel_size[axis]` -/
+def CS.length (cs : CS) (num : Rat) (i : Nat) : Except Err Rat := (cs.axisPos i).map fun p => num * cs.h p
+
+/-- `CoordinateSystem.num_voxels(length, axis)` = `ceil(length / voxel_size[axis])` -/
+def CS.numVoxelsAx (cs : CS) (len : Rat) (i : Nat) : Except Err Int := (cs.axisPos i).map fun p => cs.numVoxels len p
+
+def minR (a b : Rat) : Rat := if a ≤ b then a else b
+def maxR (a b : Rat) : Rat := if a ≤ b then b else a
+
+/-- `min_coordinate` / `max_coordinate` (and the `domain` dict, `xmin, xmax, …`): componentwise min / max of the
+origin and the opposite corner -/
+def CS.minCoordinate (cs : CS) : Except Err (List Rat) := cs.opposite.map fun opp => List.zipWith minR cs.origin opp
+def CS.maxCoordinate (cs : CS) : Except Err (List Rat) := cs.opposite.map fun opp => List.zipWith maxR cs.origin opp
+
+/-- `Image.domain`: 1-D `(origin[0], opposite[0])`; 2-D `(origin[0], opposite[0], opposite[1], origin[1])`; 3-D raises -/
+def CS.imageDomain (cs : CS) : Except Err (List Rat) := do
+  let opp ← cs.opposite
+  match cs.dim with
+  | .d1 => pure [listGetD cs.origin 0 0, listGetD opp 0 0]
+  | .d2 => pure [listGetD cs.origin 0 0, listGetD opp 0 0, listGetD opp 1 0, listGetD cs.origin 1 0]
+  | .d3 => throw .notImpl
+
+/-- `CoordinateSystem.voxels`: all voxels, first index fastest (`order="F"`); `coordinates` = their coordinates -/
+def CS.voxels (cs : CS) : List (List Nat) := boxF cs.shape
+def CS.coordinates (cs : CS) : Except Err (List (List Rat)) := cs.coordinateB (cs.voxels.map ratsOfNats)
+
+/-- `Voxel(x, matrix_indexing=False)`: floor, then reverse the component order (`np.fliplr`) -/
+def mkVoxelRev (xs : List Rat) : List Int := (mkVoxel xs).reverse
+def mkCenterRev (xs : List Rat) : List Rat := (mkCenter xs).reverse
+
+/-- `make_voxel / make_voxel_center / make_coordinate` on a 2-D array of points: every row must have 1–3 columns -/
+def batchOk {α} (pts : List (List α)) : Except Err Unit :=
+  match pts with
+  | [] => .error .assertion          -- `np.array([])` is 1-D and empty: treated as a single (empty) point by the code; not modelled
+  | p :: _ => if p.length = 1 ∨ p.length = 2 ∨ p.length = 3 then .ok () else .error .assertion
+
+def mkVoxelB (pts : List (List Rat)) (matrixIndexing : Bool) : Except Err (List (List Int)) :=
+  (batchOk pts).map fun _ => pts.map (if matrixIndexing then mkVoxel else mkVoxelRev)
+def mkCenterB (pts : List (List Rat)) (matrixIndexing : Bool) : Except Err (List (List Rat)) :=
+  (batchOk pts).map fun _ => pts.map (if matrixIndexing then mkCenter else mkCenterRev)
+def mkCoordinateB (pts : List (List Rat)) : Except Err (List (List Rat)) := (batchOk pts).map fun _ => pts
+
+/-! ### `check_equal_coordinatesystems` -/
+
+def absQ (x : Rat) : Rat := if 0 ≤ x then x else -x
+
+/-- `np.isclose(a, b)` with the default tolerances: `|a − b| ≤ 1e-8 + 1e-5·|b|` (NOT symmetric in a, b) -/
+def npClose (a b : Rat) : Bool := decide (absQ (a - b) ≤ 1 / 100000000 + 1 / 100000 * absQ b)
+
+/-- `np.allclose` of two 1-D arrays (numpy broadcasting: equal lengths, or one of length 1; otherwise ValueError) -/
+def allcloseL (close : Rat → Rat → Bool) (a b : List Rat) : Except Err Bool :=
+  if a.length = b.length then .ok ((List.zipWith close a b).all id)
+  else if a.length = 1 then .ok (b.all fun y => close (listGetD a 0 0) y)
+  else if b.length = 1 then .ok (a.all fun x => close x (listGetD b 0 0))
+  else .error .value
+
+inductive CsField | indexing | spaceDim | shape | dimensions | axes | voxelSize | originVoxel | oppositeVoxel
+  deriving DecidableEq, Repr
+
+/-- `voxel_size_equal = voxel_size_equal and np.isclose(cs1.voxel_size[axis], cs2.voxel_size[axis])` over `cs1.axes`
+(short-circuit `and`; KeyError when `cs2` lacks the axis) -/
+def voxelSizeClose (close : Rat → Rat → Bool) (c1 c2 : CS) : Except Err Bool := do
+  let am1 ← axisMap c1.dim
+  let am2 ← axisMap c2.dim
+  (List.range c1.dim.toNat).foldlM (fun ok i =>
+    if !ok then pure false
+    else if c2.dim.toNat ≤ i then throw .key
+    else pure (close (c1.h (listGetD am1 i (0, false)).1) (c2.h (listGetD am2 i (0, false)).1))) true
+
+/-- `check_equal_coordinatesystems(cs1, cs2, exclude_size)` → `(success, failure_log)`, with the closeness test a
+parameter; the comparisons are evaluated (and may raise) in the order of the code -/
+def checkEqualWith (close : Rat → Rat → Bool) (c1 c2 : CS) (excludeSize : Bool) : Except Err (Bool × List CsField) := do
+  let shapeOk ← if excludeSize then pure true else allcloseL close (ratsOfNats c1.shape) (ratsOfNats c2.shape)
+  let dimsOk ← allcloseL close c1.dims c2.dims
+  let vsOk ← if excludeSize then pure true else voxelSizeClose close c1 c2
+  let orgOk ← allcloseL close c1.origin c2.origin
+  let o1 ← c1.opposite
+  let o2 ← c2.opposite
+  let oppOk ← allcloseL close o1 o2
+  let dimEq := decide (c1.dim = c2.dim)
+  let log := (if dimEq then [] else [CsField.indexing, .spaceDim]) ++ (if shapeOk then [] else [.shape]) ++
+    (if dimsOk then [] else [.dimensions]) ++ (if dimEq then [] else [.axes]) ++ (if vsOk then [] else [.voxelSize]) ++
+    (if orgOk then [] else [.originVoxel]) ++ (if oppOk then [] else [.oppositeVoxel])
+  pure (log.isEmpty, log)
+
+def checkEqual (c1 c2 : CS) (excludeSize : Bool) : Except Err (Bool × List CsField) := checkEqualWith npClose c1 c2 excludeSize
+
+end Darsia
+
+/-! ### in-place life of an image's geometry (`Image.reset_origin`, assigning `origin` / `dimensions`) -/
+namespace Darsia
+
+/-- what can happen to the geometry of ONE image object between two conversions -/
+inductive GeomOp
+  | touch                          -- `img.coordinatesystem` / `opposite_corner` / `voxel_size` requested (builds a NEW CoordinateSystem from the current fields)
+  | resetOrigin                    -- `img.reset_origin()`
+  | setOrigin (o : List Rat)       -- `img.origin = …` / `update_metadata(origin=…)`
+  | setDimensions (D : List Rat)   -- `img.dimensions = …`
+  deriving Repr, DecidableEq
+
+/-- `Image.coordinatesystem` is a property that constructs the coordinate system from the image's CURRENT fields:
+the state of the model is just those fields, and requesting a conversion leaves it unchanged -/
+def CS.applyOp (cs : CS) : GeomOp → Except Err CS
+  | .touch => .ok cs
+  | .resetOrigin => (defaultOrigin cs.dim cs.dims).map fun o => { cs with origin := o }
+  | .setOrigin o => .ok { cs with origin := o }
+  | .setDimensions D => .ok { cs with dims := D }
+
+def CS.applyOps (cs : CS) (ops : List GeomOp) : Except Err CS := ops.foldlM CS.applyOp cs
+
+/-- the guard under which an operation keeps the geometry well formed -/
+def GeomOp.okFor (d : Dim) : GeomOp → Prop
+  | .touch => True
+  | .resetOrigin => True
+  | .setOrigin o => o.length = d.toNat
+  | .setDimensions D => D.length = d.toNat ∧ ∀ x ∈ D, (0 : Rat) < x
+
+end Darsia
